@@ -53,15 +53,27 @@ def _strval(node, facts, model):
     return None
 
 
-def decide(test, facts, model=None):
+def decide(test, facts, model=None, hook=None):
     src = ast.unparse(test)
     if src in facts.truth:
         return facts.truth[src]
+    if hook is not None:
+        h = hook(test)
+        if h is not None:
+            return h
     if isinstance(test, ast.BoolOp):
-        vals = [decide(v, facts, model) for v in test.values]
-        return all(vals) if isinstance(test.op, ast.And) else any(vals)
+        # short-circuit, left to right (a later operand may only be decidable when the earlier ones let it be reached)
+        if isinstance(test.op, ast.And):
+            for v in test.values:
+                if not decide(v, facts, model, hook):
+                    return False
+            return True
+        for v in test.values:
+            if decide(v, facts, model, hook):
+                return True
+        return False
     if isinstance(test, ast.UnaryOp) and isinstance(test.op, ast.Not):
-        return not decide(test.operand, facts, model)
+        return not decide(test.operand, facts, model, hook)
     if isinstance(test, ast.Compare) and len(test.ops) == 1:
         l, r, op = test.left, test.comparators[0], test.ops[0]
         if isinstance(op, (ast.Is, ast.IsNot)):
@@ -124,7 +136,7 @@ def walk(stmts, facts, alg, model=None, rule="dispatch", construct="?", on_assig
             t = on_test(s.test, facts, alg) if on_test is not None else None
             if t is None:
                 try:
-                    t = decide(s.test, facts, model)
+                    t = decide(s.test, facts, model, (lambda tt: on_test(tt, facts, alg)) if on_test is not None else None)
                 except Unknown as e:
                     raise AnalysisError(rule, "construct=%s undecided test `%s` line %d" % (construct, e, s.lineno))
             out = walk(s.body if t else s.orelse, facts, alg, model, rule, construct, on_assign, on_test)
